@@ -171,6 +171,77 @@ theorem C20_write_fault_reported (env : Env) (fs : FS) (p : Path) (b : Bytes)
   cases he : env.explicitConfig <;>
     simp [run, skeleton, execList, execStmt, rangeLoop, callEff, hc, hg, he, hw, hm]
 
+/-- one iteration of the write loop under ANY fault assignment touches at most its own path and never gets stuck -/
+theorem body_step_any (env : Env) (s : St) (f : Path × Bytes) (q : Path) (hq : q ≠ f.1)
+    (hr : s.returned = none) (hs : s.stuck = false) :
+    let s' := execList env { s with cur := some f } loopBody
+    fsGet s'.fs q = fsGet s.fs q ∧ s'.stuck = false := by
+  obtain ⟨p, b⟩ := f
+  simp only at hq
+  cases hm : env.mkdirFails p <;> cases hw : env.writeFails p <;>
+    simp [loopBody, execList, execStmt, callEff, hr, hs, hm, hw, fsGet_fsSet_other _ _ _ _ hq]
+
+theorem range_any (env : Env) (g : List (Path × Bytes)) (s : St) (q : Path) (hq : q ∉ g.map (·.1))
+    (hs : s.stuck = false) :
+    fsGet (rangeLoop (fun s' => execList env s' loopBody) g s).fs q = fsGet s.fs q ∧
+    (rangeLoop (fun s' => execList env s' loopBody) g s).stuck = false := by
+  induction g generalizing s with
+  | nil => simp [rangeLoop, hs]
+  | cons f fs ih =>
+    simp only [List.map_cons, List.mem_cons, not_or] at hq
+    rw [rangeLoop]
+    by_cases hcnd : (s.returned.isSome || s.stuck) = true
+    · simp only [hcnd, if_true]; exact ⟨trivial, hs⟩
+    · simp only [hcnd, Bool.false_eq_true, if_false]
+      have hr : s.returned = none := by
+        cases h : s.returned with
+        | none => rfl
+        | some r => simp [h] at hcnd
+      have hb := body_step_any env s f q hq.1 hr hs
+      simp only at hb
+      have := ih _ hq.2 hb.2
+      rw [this.1, hb.1]; exact ⟨rfl, this.2⟩
+
+/-- **C20_faults_confined** — under EVERY assignment of configuration, generation and OS-level faults, a run only
+    ever touches paths the generator named: any other path keeps its bytes, the interpreter never meets a
+    statement it cannot run, and the run always returns. -/
+theorem C20_faults_confined (env : Env) (fs : FS) (q : Path)
+    (hq : ∀ g, env.genResult = some g → q ∉ g.map (·.1)) :
+    fsGet (run env fs).fs q = fsGet fs q ∧ (run env fs).stuck = false ∧ (run env fs).returned.isSome = true := by
+  by_cases hc : env.cfgFails = true
+  · cases he : env.explicitConfig <;>
+      simp [run, skeleton, execList, execStmt, callEff, hc, he]
+  · have hc : env.cfgFails = false := by simpa using hc
+    cases hg : env.genResult with
+    | none =>
+      cases he : env.explicitConfig <;>
+        simp [run, skeleton, execList, execStmt, callEff, hc, hg, he]
+    | some g =>
+      have hsk : skeleton = skeletonPrefix ++ ([.rangeGenerated loopBody] ++ [.retNil]) := rfl
+      rw [run, hsk, execList_append, execList_append]
+      have hp : execList env { fs := fs } skeletonPrefix =
+          { fs := fs, err := false, cfgLoaded := true, generated := g } := by
+        cases he : env.explicitConfig <;>
+          simp [skeletonPrefix, execList, execStmt, callEff, hc, hg, he]
+      rw [hp]
+      have hr := range_any env g { fs := fs, err := false, cfgLoaded := true, generated := g } q (hq g hg) rfl
+      have hl : execList env { fs := fs, err := false, cfgLoaded := true, generated := g } [.rangeGenerated loopBody] =
+          rangeLoop (fun s' => execList env s' loopBody) g { fs := fs, err := false, cfgLoaded := true, generated := g } := by
+        rw [execList, execList]
+        simp only [Option.isSome_none, Bool.or_self, Bool.false_eq_true, if_false, execStmt]
+      rw [hl]
+      generalize rangeLoop (fun s' => execList env s' loopBody) g { fs := fs, err := false, cfgLoaded := true, generated := g } = s1 at hr ⊢
+      rw [execList]
+      by_cases hcnd : (s1.returned.isSome || s1.stuck) = true
+      · simp only [hcnd, if_true]
+        refine ⟨hr.1, hr.2, ?_⟩
+        simpa [hr.2] using hcnd
+      · simp only [hcnd, Bool.false_eq_true, if_false, execList, execStmt]
+        exact ⟨hr.1, hr.2, by simp⟩
+
+-- non-vacuity: a mkdir fault on the second of three files; path 9 is not generated and keeps its bytes
+example : fsGet (run ⟨true, false, some [(1, [9]), (2, [5]), (3, [4])], fun p => p == 2, fun _ => false⟩ [(9, [7]), (3, [0])]).fs 9 = some [7] := by decide
+
 -- non-vacuity: a failing and a succeeding environment
 example : (run ⟨true, false, none, fun _ => false, fun _ => false⟩ [(1, [7])]).fs = [(1, [7])] := by decide
 example : fsGet (run ⟨true, false, some [(1, [9, 9]), (2, [5])], fun _ => false, fun _ => false⟩ [(1, [7, 7, 7])]).fs 1 = some [9, 9] := by decide
